@@ -18,6 +18,8 @@ package msg
 //@   invariant [gc-config] this.GCSweep > 0 && this.GCExpire >= 2*this.GCSweep
 //@
 //@ once (*Box).init
+//@   // the maps are assigned by the Once closure only (guarded-field-store obligation): before it ran they are nil
+//@   requires this.pendingMessages == nil && this.startedSending == nil && this.totalInFlightTopicsBySender == nil
 //@   ensures [maps]  this.pendingMessages != nil && this.startedSending != nil && this.totalInFlightTopicsBySender != nil
 //@   ensures [clock] this.stopClock != nil
 //@
@@ -32,46 +34,249 @@ package msg
 //@ monitor (*storedMessages).lock
 //@   guards messages, messageCountPerSender, lastUsed
 //@   invariant [non-nil] forall i int :: 0 <= i && i < len(this.messages) ==> this.messages[i] != nil
+//@   // bounded buffer (C15): at most limitPerSender+1 messages of one sender are kept per topic
+//@   invariant [bounded] forall s uint16 :: { dom(this.messageCountPerSender, s) } s in this.messageCountPerSender ==> 0 <= this.messageCountPerSender[s] && this.messageCountPerSender[s] <= limitPerSender + 1
 //@
+// ---- bounded buffer that gives resources back (C15): sequential reading (histories of calls) ---------------------------
+// The invariants below relate several maps that are updated in separate critical sections of one call; they are stated
+// between calls (requires/ensures of the operations), not as monitor invariants.
+
+//@ spec macro initialised(b *Box) bool = b.pendingMessages != nil && b.startedSending != nil && b.totalInFlightTopicsBySender != nil && b.stopClock != nil
+//@ spec macro fresh0(b *Box) bool = b.pendingMessages == nil && b.startedSending == nil && b.totalInFlightTopicsBySender == nil
+//@ // a topic is in a sender's in-flight set only while it is buffered, with that sender among the buffer's senders
+//@ spec macro inflightSound(b *Box) bool = forall s uint16, t string :: { dom(b.totalInFlightTopicsBySender[s], t) }
+//@                                           s in b.totalInFlightTopicsBySender && t in b.totalInFlightTopicsBySender[s] ==>
+//@                                           t in b.pendingMessages && s in b.pendingMessages[t].messageCountPerSender
+//@ spec macro exclusive(b *Box) bool = forall t string :: { dom(b.pendingMessages, t) } t in b.pendingMessages ==> !(t in b.startedSending)
+//@ spec macro wellFormed(b *Box) bool = (forall t string :: { dom(b.pendingMessages, t) } t in b.pendingMessages ==>
+//@                                         b.pendingMessages[t] != nil && b.pendingMessages[t].messageCountPerSender != nil && b.pendingMessages[t].logger != nil) &&
+//@                                      (forall s uint16 :: { dom(b.totalInFlightTopicsBySender, s) } s in b.totalInFlightTopicsBySender ==> b.totalInFlightTopicsBySender[s] != nil) &&
+//@                                      (forall t1 string, t2 string :: { dom(b.pendingMessages, t1), dom(b.pendingMessages, t2) } t1 in b.pendingMessages && t2 in b.pendingMessages && t1 != t2 ==>
+//@                                         b.pendingMessages[t1] != b.pendingMessages[t2] && b.pendingMessages[t1].messageCountPerSender != b.pendingMessages[t2].messageCountPerSender) &&
+//@                                      (forall s1 uint16, s2 uint16 :: { dom(b.totalInFlightTopicsBySender, s1), dom(b.totalInFlightTopicsBySender, s2) }
+//@                                         s1 in b.totalInFlightTopicsBySender && s2 in b.totalInFlightTopicsBySender && s1 != s2 ==> b.totalInFlightTopicsBySender[s1] != b.totalInFlightTopicsBySender[s2])
+//@ spec macro boxInv(b *Box) bool = initialised(b) && wellFormed(b) && inflightSound(b) && exclusive(b)
+
 //@ func (*Box).initialize
 //@   props C10 C14 C15
 //@   modifies b.pendingMessages, b.startedSending, b.totalInFlightTopicsBySender, b.stopClock
-//@   ensures  b.pendingMessages != nil && b.startedSending != nil && b.totalInFlightTopicsBySender != nil && b.stopClock != nil
-//@   ensures [stable] (b.pendingMessages == old(b.pendingMessages) || fresh(b.pendingMessages)) &&
-//@                    (b.startedSending == old(b.startedSending) || fresh(b.startedSending)) &&
-//@                    (b.totalInFlightTopicsBySender == old(b.totalInFlightTopicsBySender) || fresh(b.totalInFlightTopicsBySender))
+//@   ensures  [init] initialised(b)
+//@   ensures  [noop] old(b.pendingMessages != nil) ==> b.pendingMessages == old(b.pendingMessages) && b.startedSending == old(b.startedSending) &&
+//@                     b.totalInFlightTopicsBySender == old(b.totalInFlightTopicsBySender) && b.stopClock == old(b.stopClock)
+//@   ensures  [empty] old(b.pendingMessages == nil) ==> (forall t string :: !(t in b.pendingMessages)) && (forall t string :: !(t in b.startedSending)) &&
+//@                     (forall s uint16 :: !(s in b.totalInFlightTopicsBySender))
 //@
 //@ func (*Box).hasStartedSending
 //@   props C10 C14 C15
-//@   modifies b.pendingMessages, b.startedSending, b.totalInFlightTopicsBySender, b.stopClock, guarded(b.lock)
-//@   ensures  b.pendingMessages != nil && b.startedSending != nil && b.totalInFlightTopicsBySender != nil
+//@   seq
+//@   requires initialised(b)
+//@   modifies nothing
+//@   ensures  [started] result == (string(topic) in b.startedSending)
 //@
 //@ func (*Box).markTopicForSender
 //@   props C10 C14 C15
-//@   requires msg != nil && b.totalInFlightTopicsBySender != nil
-//@   modifies guarded(b.lock)
+//@   seq
+//@   requires msg != nil && initialised(b) && wellFormed(b)
+//@   modifies b.totalInFlightTopicsBySender[*], heap:MD!string!empty, heap:MV!string!empty
+//@   ensures [marked] msg.Source in b.totalInFlightTopicsBySender && b.totalInFlightTopicsBySender[msg.Source] != nil && string(msg.Topic) in b.totalInFlightTopicsBySender[msg.Source]
+//@   ensures [others] forall s uint16, t string :: { dom(b.totalInFlightTopicsBySender[s], t) } (s != msg.Source || t != string(msg.Topic)) ==>
+//@                      ((s in b.totalInFlightTopicsBySender && t in b.totalInFlightTopicsBySender[s]) == old(s in b.totalInFlightTopicsBySender && t in b.totalInFlightTopicsBySender[s]))
+//@   ensures [well-formed] wellFormed(b)
 //@
 //@ func (*Box).getOrCreateMessagesByTopic
 //@   props C10 C14 C15
-//@   modifies b.pendingMessages, b.startedSending, b.totalInFlightTopicsBySender, b.stopClock, guarded(b.lock)
-//@   ensures  result != nil && result.messageCountPerSender != nil && result.logger != nil
-//@   ensures  b.pendingMessages != nil && b.startedSending != nil && b.totalInFlightTopicsBySender != nil
+//@   seq
+//@   requires initialised(b) && wellFormed(b)
+//@   modifies b.pendingMessages[*]
+//@   ensures  [result]  result != nil && result.messageCountPerSender != nil && result.logger != nil &&
+//@                      string(topic) in b.pendingMessages && b.pendingMessages[string(topic)] == result
+//@   ensures  [same]    old(string(topic) in b.pendingMessages) ==> result == old(b.pendingMessages[string(topic)])
+//@   ensures  [created] !old(string(topic) in b.pendingMessages) ==> fresh(result) && forall s uint16 :: !(s in result.messageCountPerSender)
+//@   ensures  [others]  forall t string :: { dom(b.pendingMessages, t) } t != string(topic) ==>
+//@                        (t in b.pendingMessages) == old(t in b.pendingMessages) && b.pendingMessages[t] == old(b.pendingMessages[t])
+//@   ensures  [well-formed] wellFormed(b)
 //@
 //@ func (*storedMessages).add
 //@   props C10 C14 C15
+//@   seq
 //@   requires msg != nil && sm.logger != nil && sm.messageCountPerSender != nil
 //@   modifies guarded(sm.lock)
+//@   ensures [counted] msg.Source in sm.messageCountPerSender
+//@   ensures [kept]    forall s uint16 :: { dom(sm.messageCountPerSender, s) } old(s in sm.messageCountPerSender) ==> s in sm.messageCountPerSender
+//@   ensures [bounded] old(msg.Source in sm.messageCountPerSender && sm.messageCountPerSender[msg.Source] > limitPerSender) ==>
+//@                       same(sm.messages, old(sm.messages)) && sm.messageCountPerSender[msg.Source] == old(sm.messageCountPerSender[msg.Source])
+//@   ensures [map]     sm.messageCountPerSender == old(sm.messageCountPerSender)
 //@
 //@ func (*Box).storeOrForward
 //@   props C10 C14 C15
-//@   requires msg != nil
+//@   seq
+//@   requires msg != nil && (fresh0(b) || boxInv(b))
+//@   modifies b.pendingMessages, b.startedSending, b.totalInFlightTopicsBySender, b.stopClock, b.pendingMessages[*], b.totalInFlightTopicsBySender[*], heap:MD!string!empty, heap:MV!string!empty,
+//@            heap:MV!string!p_msg_storedMessages, heap:F!storedMessages!messages, heap:F!storedMessages!lastUsed, heap:MD!uint16!int, heap:MV!uint16!int, heap:E!p_tss_IncMessage, heap:MV!uint16!m_string_empty, heap:MD!uint16!m_string_empty, heap:MD!string!p_msg_storedMessages
+//@   ensures  [same-maps] old(b.pendingMessages != nil) ==> b.pendingMessages == old(b.pendingMessages) && b.startedSending == old(b.startedSending) &&
+//@                          b.totalInFlightTopicsBySender == old(b.totalInFlightTopicsBySender) && b.stopClock == old(b.stopClock)
+//@   ensures  [inv-init]  initialised(b)
+//@   ensures  [inv-wf]    wellFormed(b)
+//@   ensures  [inv-sound] inflightSound(b)
+//@   ensures  [inv-excl]  exclusive(b)
+//@   // a started topic is never buffered again, and nothing about it is recorded for any sender
+//@   ensures  [started-stay-released] forall t string :: { dom(b.startedSending, t) } old(b.startedSending != nil && t in b.startedSending) ==>
+//@                                      (t in b.startedSending) && !(t in b.pendingMessages)
 //@
 //@ func (*Box).HandleMessage
 //@   props C10 C14 C15
-//@   requires msg != nil
+//@   seq
+//@   requires msg != nil && (fresh0(b) || boxInv(b))
+//@   modifies b.pendingMessages, b.startedSending, b.totalInFlightTopicsBySender, b.stopClock, b.pendingMessages[*], b.totalInFlightTopicsBySender[*], heap:MD!string!empty, heap:MV!string!empty,
+//@            heap:MV!string!p_msg_storedMessages, heap:F!storedMessages!messages, heap:F!storedMessages!lastUsed, heap:MD!uint16!int, heap:MV!uint16!int, heap:E!p_tss_IncMessage, heap:MV!uint16!m_string_empty, heap:MD!uint16!m_string_empty, heap:MD!string!p_msg_storedMessages
+//@   ensures  [same-maps] old(b.pendingMessages != nil) ==> b.pendingMessages == old(b.pendingMessages) && b.startedSending == old(b.startedSending) &&
+//@                          b.totalInFlightTopicsBySender == old(b.totalInFlightTopicsBySender) && b.stopClock == old(b.stopClock)
+//@   ensures  [inv-init]  initialised(b) || (fresh0(b) && msg.MsgType != uint8(MsgTypeMPC))
+//@   ensures  [inv-wf]    wellFormed(b)
+//@   ensures  [inv-sound] inflightSound(b)
+//@   ensures  [inv-excl]  exclusive(b)
+//@   ensures  [started-stay-released] forall t string :: { dom(b.startedSending, t) } old(b.startedSending != nil && t in b.startedSending) ==>
+//@                                      (t in b.startedSending) && !(t in b.pendingMessages)
+
+//@ func (*storedMessages).senders
+//@   props C15
+//@   seq
+//@   requires sm.messageCountPerSender != nil
+//@   modifies nothing
+//@   ensures [all]  forall s uint16 :: { dom(sm.messageCountPerSender, s) } s in sm.messageCountPerSender ==> s in elems(result, len(result))
+//@   loop 0: invariant [collected] forall s uint16 :: { dom(visited(sm.messageCountPerSender), s) } s in visited(sm.messageCountPerSender) ==> s in elems(res, len(res))
 //@
-//@ func (*Box).Send
-//@   props C14 C15
+//@ func (*storedMessages).lastUse
+//@   props C15
+//@   seq
+//@   modifies nothing
+//@   ensures result == sm.lastUsed
+
+//@ spec macro released(b *Box, t string) bool = !(t in b.pendingMessages) &&
+//@                                              (forall s uint16 :: { dom(b.totalInFlightTopicsBySender, s) } s in b.totalInFlightTopicsBySender ==> !(t in b.totalInFlightTopicsBySender[s]))
+//@ spec macro expiredBuffered(b *Box, t string, now uint64, e int64) bool = t in b.pendingMessages && int64(now - b.pendingMessages[t].lastUsed) > e
+//@ spec macro expiredStarted(b *Box, t string, now uint64, e int64) bool = t in b.startedSending && int64(now - b.startedSending[t]) > e
+
+//@ // release on expiry (C15): mark finds every topic whose last use (buffered) or last send (started) is more than e epochs old, and only those
+//@ func (*Box).mark
+//@   props C15
+//@   seq
+//@   requires initialised(b) && wellFormed(b)
+//@   modifies nothing
+//@   ensures [expired-buffered] forall t string :: { dom(b.pendingMessages, t) } expiredBuffered(b, t, now, int64(epochsAfterWhichWeGC)) ==> t in elems(result, len(result))
+//@   ensures [expired-started]  forall t string :: { dom(b.startedSending, t) } expiredStarted(b, t, now, int64(epochsAfterWhichWeGC)) ==> t in elems(result, len(result))
+//@   ensures [only-expired]     forall t string :: t in elems(result, len(result)) ==> expiredBuffered(b, t, now, int64(epochsAfterWhichWeGC)) || expiredStarted(b, t, now, int64(epochsAfterWhichWeGC))
+//@   loop 0: invariant [buffered] (forall t string :: { dom(visited(b.pendingMessages), t) } t in visited(b.pendingMessages) && expiredBuffered(b, t, now, int64(epochsAfterWhichWeGC)) ==> t in elems(topics2Delete, len(topics2Delete))) &&
+//@                                (forall t string :: t in elems(topics2Delete, len(topics2Delete)) ==> expiredBuffered(b, t, now, int64(epochsAfterWhichWeGC)))
+//@   loop 1: invariant [started]  (forall t string :: { dom(b.pendingMessages, t) } expiredBuffered(b, t, now, int64(epochsAfterWhichWeGC)) ==> t in elems(topics2Delete, len(topics2Delete))) &&
+//@                                (forall t string :: { dom(visited(b.startedSending), t) } t in visited(b.startedSending) && expiredStarted(b, t, now, int64(epochsAfterWhichWeGC)) ==> t in elems(topics2Delete, len(topics2Delete))) &&
+//@                                (forall t string :: t in elems(topics2Delete, len(topics2Delete)) ==> expiredBuffered(b, t, now, int64(epochsAfterWhichWeGC)) || expiredStarted(b, t, now, int64(epochsAfterWhichWeGC)))
 //@
+//@ // sweep releases everything recorded for the given topics
+//@ func (*Box).sweep
+//@   props C15
+//@   seq
+//@   requires boxInv(b)
+//@   modifies b.pendingMessages[*], b.startedSending[*], heap:MD!string!empty, heap:MV!string!empty
+//@   ensures  [inv-init]  initialised(b)
+//@   ensures  [inv-wf]    wellFormed(b)
+//@   ensures  [inv-sound] inflightSound(b)
+//@   ensures  [inv-excl]  exclusive(b)
+//@   ensures  [deleted]   forall j int :: 0 <= j && j < len(topics2Delete) ==> released(b, topics2Delete[j]) && !(topics2Delete[j] in b.startedSending)
+//@   ensures  [shrinks]   (forall t string :: { dom(b.pendingMessages, t) } t in b.pendingMessages ==> old(t in b.pendingMessages) && b.pendingMessages[t] == old(b.pendingMessages[t])) &&
+//@                        (forall t string :: { dom(b.startedSending, t) } t in b.startedSending ==> old(t in b.startedSending) && b.startedSending[t] == old(b.startedSending[t]))
+//@   ensures  [kept]      forall t string :: { dom(b.startedSending, t) } { dom(b.pendingMessages, t) } !(t in elems(topics2Delete, len(topics2Delete))) ==>
+//@                          (t in b.startedSending) == old(t in b.startedSending) && (t in b.pendingMessages) == old(t in b.pendingMessages)
+//@   loop 0: invariant [kept]    forall t string :: { dom(b.startedSending, t) } { dom(b.pendingMessages, t) } !(t in elems(topics2Delete, rangeindex#1 + 1)) ==>
+//@                                 (t in b.startedSending) == old(t in b.startedSending) && (t in b.pendingMessages) == old(t in b.pendingMessages)
+//@   loop 1: invariant [kept]    forall t string :: { dom(b.startedSending, t) } { dom(b.pendingMessages, t) } !(t in elems(topics2Delete, rangeindex#1)) ==>
+//@                                 (t in b.startedSending) == old(t in b.startedSending) && (t in b.pendingMessages) == old(t in b.pendingMessages)
+//@   loop 0: invariant [idx]     -1 <= rangeindex#1 && rangeindex#1 < len(topics2Delete)
+//@   loop 0: invariant [wf]      wellFormed(b)
+//@   loop 0: invariant [sound]   inflightSound(b)
+//@   loop 0: invariant [excl]    exclusive(b)
+//@   loop 0: invariant [done]    forall j int :: 0 <= j && j <= rangeindex#1 ==> released(b, topics2Delete[j]) && !(topics2Delete[j] in b.startedSending)
+//@   loop 0: invariant [shrinkp] forall t string :: { dom(b.pendingMessages, t) } t in b.pendingMessages ==> old(t in b.pendingMessages) && b.pendingMessages[t] == old(b.pendingMessages[t])
+//@   loop 0: invariant [shrinks] forall t string :: { dom(b.startedSending, t) } t in b.startedSending ==> old(t in b.startedSending) && b.startedSending[t] == old(b.startedSending[t])
+//@   loop 1: invariant [wf]      wellFormed(b)
+//@   loop 1: invariant [sound]   inflightSound(b)
+//@   loop 1: invariant [excl]    exclusive(b)
+//@   loop 1: invariant [cur1]    topic in b.pendingMessages && messages == b.pendingMessages[topic]
+//@   loop 1: invariant [cur2]    0 <= rangeindex#1 && rangeindex#1 < len(topics2Delete)
+//@   loop 1: invariant [cur3]    topic == topics2Delete[rangeindex#1]
+//@   loop 1: invariant [all]     forall s uint16 :: { dom(messages.messageCountPerSender, s) } s in messages.messageCountPerSender ==> s in elems(rangeslice#2, len(rangeslice#2))
+//@   loop 1: invariant [cleared] forall j int :: 0 <= j && j <= rangeindex#2 ==> !(rangeslice#2[j] in b.totalInFlightTopicsBySender) || !(topic in b.totalInFlightTopicsBySender[rangeslice#2[j]])
+//@   loop 1: invariant [done]    forall j int :: 0 <= j && j < rangeindex#1 ==> released(b, topics2Delete[j]) && !(topics2Delete[j] in b.startedSending)
+//@   loop 1: invariant [shrinkp] forall t string :: { dom(b.pendingMessages, t) } t in b.pendingMessages ==> old(t in b.pendingMessages) && b.pendingMessages[t] == old(b.pendingMessages[t])
+//@   loop 1: invariant [shrinks] forall t string :: { dom(b.startedSending, t) } t in b.startedSending ==> old(t in b.startedSending) && b.startedSending[t] == old(b.startedSending[t])
+
+//@ // a collection is due when the last one is at least e = GCExpire/GCSweep epochs old; then every topic that is expired at
+//@ // the current epoch is released, and nothing else is touched
 //@ func (*Box).maybeGC
 //@   props C15
+//@   seq
+//@   requires fresh0(b) || boxInv(b)
+//@   modifies b.lastGC, b.pendingMessages, b.startedSending, b.totalInFlightTopicsBySender, b.stopClock, b.pendingMessages[*], b.startedSending[*], heap:MD!string!empty, heap:MV!string!empty, heap:MV!string!p_msg_storedMessages, heap:MV!string!uint64
+//@   ensures  [inv-init]  initialised(b)
+//@   ensures  [inv-wf]    wellFormed(b)
+//@   ensures  [inv-sound] inflightSound(b)
+//@   ensures  [inv-excl]  exclusive(b)
+//@   ensures  [same-maps] old(b.pendingMessages != nil) ==> b.pendingMessages == old(b.pendingMessages) && b.startedSending == old(b.startedSending) &&
+//@                          b.totalInFlightTopicsBySender == old(b.totalInFlightTopicsBySender) && b.stopClock == old(b.stopClock)
+//@   // a topic started in the current epoch is never collected
+//@   ensures  [fresh-start-kept] old(b.pendingMessages != nil) ==> forall t string :: { dom(b.startedSending, t) } { old(dom(b.startedSending, t)) }
+//@                          old(t in b.startedSending) && old(b.startedSending[t]) == old(b.currentGCEpochNum) ==> t in b.startedSending
+//@   ensures  [shrinks]   old(b.pendingMessages != nil) ==>
+//@                        (forall t string :: { dom(b.pendingMessages, t) } t in b.pendingMessages ==> old(t in b.pendingMessages) && b.pendingMessages[t] == old(b.pendingMessages[t])) &&
+//@                        (forall t string :: { dom(b.startedSending, t) } t in b.startedSending ==> old(t in b.startedSending) && b.startedSending[t] == old(b.startedSending[t]))
+//@   at return:
+//@     assert [collects] old(b.pendingMessages != nil) && int64(now - lastGC) >= int64(epochsAfterWhichWeGC) ==>
+//@                         (forall t string :: { old(dom(b.pendingMessages, t)) } old(t in b.pendingMessages) && int64(now - old(b.pendingMessages[t].lastUsed)) > int64(epochsAfterWhichWeGC) ==> released(b, t)) &&
+//@                         (forall t string :: { old(dom(b.startedSending, t)) } old(t in b.startedSending) && int64(now - old(b.startedSending[t])) > int64(epochsAfterWhichWeGC) ==> !(t in b.startedSending))
+//@     assert [kept]     old(b.pendingMessages != nil) ==> forall t string :: { dom(b.startedSending, t) } { dom(b.pendingMessages, t) }
+//@                         !(old(t in b.pendingMessages) && int64(now - old(b.pendingMessages[t].lastUsed)) > int64(epochsAfterWhichWeGC)) &&
+//@                         !(old(t in b.startedSending) && int64(now - old(b.startedSending[t])) > int64(epochsAfterWhichWeGC)) ==>
+//@                         (t in b.startedSending) == old(t in b.startedSending) && (t in b.pendingMessages) == old(t in b.pendingMessages)
+//@     assert [clock]    now == old(b.currentGCEpochNum) && lastGC == old(b.lastGC)
+
+//@ // the drain of the messages that were buffered for the topic (deferred closure of Send)
+//@ func (*Box).Send$1
+//@   props C14 C15
+//@   seq
+//@   // that the drained messages are non-nil (needed by HandleMessage) is not carried through the loop: a buffer that was
+//@   // detached from pendingMessages shares no array with the buffers that HandleMessage appends to, which these contracts
+//@   // do not express; the obligation requires@HandleMessage in this closure is therefore left undecided (never claimed)
+//@   requires boxInv(b)
+//@   modifies b.pendingMessages, b.startedSending, b.totalInFlightTopicsBySender, b.stopClock, b.pendingMessages[*], b.totalInFlightTopicsBySender[*], heap:MD!string!empty, heap:MV!string!empty,
+//@            heap:MV!string!p_msg_storedMessages, heap:F!storedMessages!messages, heap:F!storedMessages!lastUsed, heap:MD!uint16!int, heap:MV!uint16!int, heap:E!p_tss_IncMessage, heap:MV!uint16!m_string_empty, heap:MD!uint16!m_string_empty, heap:MD!string!p_msg_storedMessages
+//@   ensures  [same-maps] b.pendingMessages == old(b.pendingMessages) && b.startedSending == old(b.startedSending) && b.totalInFlightTopicsBySender == old(b.totalInFlightTopicsBySender)
+//@   ensures  [inv-init]  initialised(b)
+//@   ensures  [inv-wf]    wellFormed(b)
+//@   ensures  [inv-sound] inflightSound(b)
+//@   ensures  [inv-excl]  exclusive(b)
+//@   ensures  [started-stay-released] forall t string :: { dom(b.startedSending, t) } old(t in b.startedSending) ==> (t in b.startedSending) && !(t in b.pendingMessages) && b.startedSending[t] == old(b.startedSending[t])
+//@   ensures  [clock] b.currentGCEpochNum == old(b.currentGCEpochNum)
+//@   loop 0: invariant [init]  initialised(b) && b.pendingMessages == old(b.pendingMessages) && b.startedSending == old(b.startedSending) && b.totalInFlightTopicsBySender == old(b.totalInFlightTopicsBySender)
+//@   loop 0: invariant [wf]    wellFormed(b)
+//@   loop 0: invariant [sound] inflightSound(b)
+//@   loop 0: invariant [excl]  exclusive(b)
+//@   loop 0: invariant [stay] forall t string :: { dom(b.startedSending, t) } old(t in b.startedSending) ==> (t in b.startedSending) && !(t in b.pendingMessages)
+//@
+//@ // release on start (C15): after Send the topic is neither buffered nor in any sender's in-flight set
+//@ func (*Box).Send
+//@   props C14 C15
+//@   seq
+//@   requires fresh0(b) || boxInv(b)
+//@   ensures  [inv-init]  initialised(b)
+//@   ensures  [inv-wf]    wellFormed(b)
+//@   ensures  [inv-sound] inflightSound(b)
+//@   ensures  [inv-excl]  exclusive(b)
+//@   ensures  [started]   old(string(topic)) in b.startedSending
+//@   ensures  [released]  released(b, old(string(topic)))
+//@   loop 0: invariant [wf]      wellFormed(b) && initialised(b)
+//@   loop 0: invariant [sound]   inflightSound(b)
+//@   loop 0: invariant [cur]     string(topic) == old(string(topic)) && string(topic) in b.pendingMessages && msgs == b.pendingMessages[string(topic)] && string(topic) in b.startedSending
+//@   loop 0: invariant [excl]    forall t string :: { dom(b.pendingMessages, t) } t in b.pendingMessages && t != string(topic) ==> !(t in b.startedSending)
+//@   loop 0: invariant [all]     forall s uint16 :: { dom(msgs.messageCountPerSender, s) } s in msgs.messageCountPerSender ==> s in elems(rangeslice, len(rangeslice))
+//@   loop 0: invariant [cleared] forall j int :: 0 <= j && j <= rangeindex ==> !(rangeslice[j] in b.totalInFlightTopicsBySender) || !(string(topic) in b.totalInFlightTopicsBySender[rangeslice[j]])
+//@   loop 0: invariant [msgs]    forall i int :: 0 <= i && i < len(messages) ==> messages[i] != nil
